@@ -83,9 +83,30 @@ class Rec(object):
         return (self.classname, self.name, self.nodes, self.args, self.keyword, self.opts_string)
 
 
+def canon_opts(o):
+    """canonical option string written by the harness from the parsed Opts *dict* (key by key, with
+    the Python type Lcapy derived: str / bool / list for `def`) -- deliberately NOT Opts.format, so
+    that the oracle does not look at the option table through the printer under test"""
+    parts = []
+    for k, v in o.items():
+        vs = v if isinstance(v, list) else [v]
+        for x in vs:
+            if isinstance(x, bool):
+                parts.append('%s=%s' % (k, 'True' if x else 'False'))
+            elif x == '':
+                parts.append(k)
+            else:
+                parts.append('%s=%s' % (k, x))
+    return ', '.join(parts)
+
+
+def typed_opts(o):
+    return tuple((k, type(v).__name__, tuple(v) if isinstance(v, list) else v) for k, v in o.items())
+
+
 def rec_of_cpt(e):
     """the same description read back from a real mnacpts component"""
-    r = Rec(e.classname, None, '', e.name, e.type, e.id, e._string, e.opts.format(), tuple(e.node_names),
+    r = Rec(e.classname, None, '', e.name, e.type, e.id, e._string, canon_opts(e.opts), tuple(e.node_names),
             e.keyword, *[None if a is None else str(a) for a in e.args])
     return r
 
@@ -265,7 +286,17 @@ SHAPES = {'number': NUM, 'suffixed': SUF, 'symbol': SYM, 'braced': BRACED, 'quot
 SHAPE_ORDER = ['number', 'suffixed', 'symbol', 'braced', 'quoted']
 NODES = ['1', '2', '0', 'n_1', 'a.b', 'x.y_z', '3', 'out', '10', 'p_2.q', '.t', 'N4']
 OPTS = ['', '; right', '; right=2, color=blue', ';down=1.5', '; l={a, b}, v=$V_1$', '; size=true, invisible',
-        ' ;  up , scale = 2 ', '; l^=R_1, i=i_1', '; right, right=3', '; a=b=c, l=']
+        ' ;  up , scale = 2 ', '; l^=R_1, i=i_1', '; right, right=3', '; a=b=c, l=',
+        '; right, mirror=false', '; down, flipud=False, fliplr', '; invisible=false, l^={a,b}',
+        '; dashed=False, thick=True', '; mirror=false, mirror', '; scale=0, size=0.0, l={}', '; mirror, mirror=False',
+        '; invert=true, mirror=False, v=v_C']
+OPTS_FOCUS = ['right, mirror=false, l={R_1=3, ohm}', 'down, invert=true, mirror=False, v=v_C', 'right, mirror, scale=0.5',
+              'down, flipud=False, fliplr', 'down, invisible=false, l^={a,b}', 'right, dashed=False, thick=True',
+              'right, mirror=False, mirror=True', 'right, fliplr=false, flipud=true, invert=False', 'scale=0, size=0.0',
+              'l={}, right', 'right, l=', 'nosim=false, right', 'right, def=a, def=false', 'right=0, mirror=0',
+              'right, color=False']
+OPTS_CPTS = ['R1 1 2 3', 'C1 1 2 C1 4', 'V1 1 0 step 10', 'E1 3 0 opamp 2 4 A', 'W 1 2', 'L1 1 2', 'SW1 1 2 nc 3', 'TF1 1 2 3 4 5',
+             'U1 opamp', 'Q1 1 2 3 pnp']
 IDS = ['1', '2', '_x', '12a', '_out1', '3_b']
 KEYWORDS_LOWER = None
 
@@ -481,7 +512,8 @@ def gen_rewrites(real, thorough):
                 if d is None:
                     continue
                 out.append((d.netlist(), rw))
-            except Exception:   # noqa
+            except Exception as e:   # noqa
+                out.append((None, '%s-raises:%s' % (rw, type(e).__name__)))
                 continue
     from lcapy import R, C, L, V, I, Par, Ser
     nets = []
@@ -709,6 +741,18 @@ def run(chk, replay=None):
                                'parse . print . parse differs from parse (%s)' % verdict)
             chk.count('outcome', 'violation:' + verdict)
             return 'violation'
+        # option tables key by key, with the Python type Lcapy derived (str / bool / list)
+        if c1 is not None and c2 is not None:
+            for e1, e2 in zip(c1._elements.values(), c2._elements.values()):
+                chk.count('semantic', 'opts-typed-compared')
+                if typed_opts(e1.opts) != typed_opts(e2.opts):
+                    state['cex'] += 1
+                    chk.counterexample({'kind': 'roundtrip', 'clause': 'opts-typed', 'rule': meta.get('rule')},
+                                       {'input': text, 'lcapy': {'printed': p1, 'before': str(typed_opts(e1.opts)),
+                                                                 'after': str(typed_opts(e2.opts))}, 'meta': meta,
+                                        'spec': 'option values and their types equal after the round trip'},
+                                       'options of %s differ after the round trip' % e1.name)
+                    return 'violation'
         # values compared exactly (sympy) on the analysis objects
         if c1 is not None and c2 is not None:
             for e1, e2 in zip(c1._elements.values(), c2._elements.values()):
@@ -743,8 +787,20 @@ def run(chk, replay=None):
         if lc != md:
             disagree('split', s, lc, md)
     opt_alpha = ['a', 'l', '=', ',', ' ', '{', '}', 'true', 'False', 'def', '1', '^', ';']
-    for k in range(n_split // 2):
-        s = ''.join(rng.choice(opt_alpha) for _ in range(rng.randint(0, 10)))
+    opt_vals = ['', '=', '=false', '=False', '=true', '=True', '=0', '=0.0', '={}', '={a, b}', '=x=y', '= false ', '=FALSE',
+                '=None', '=falsey']
+    structured = []
+    for v1 in opt_vals:
+        structured.append('mirror' + v1)
+        for v2 in opt_vals[:6]:
+            structured.append('right, mirror%s, l%s' % (v1, v2))
+            structured.append('def%s, def%s' % (v1, v2))
+            structured.append('k%s, k%s' % (v1, v2))
+    for k in range(n_split // 2 + len(structured)):
+        if k < len(structured):
+            s = structured[k]
+        else:
+            s = ''.join(rng.choice(opt_alpha) for _ in range(rng.randint(0, 10)))
         try:
             o = real.Opts(s)
             items = []
@@ -854,6 +910,61 @@ def run(chk, replay=None):
         roundtrip_case(text, {'rule': cls, 'stream': what}, 'hypothesis-boundary')
         chk.count('hypothesis-boundary', what)
 
+    # ---- 3c'. option strings: every form the option parser accepts, in particular options explicitly set to
+    #           false / falsy values (`mirror=false`, `flipud=False`, `scale=0`, `l={}`), on several component kinds;
+    #           copy() (print-then-parse) must preserve them; the schematic built from the printed text must see
+    #           the same boolean drawing attributes as the schematic built from the original text
+    FLAGS = ('mirror', 'invert', 'flipud', 'fliplr', 'invisible')
+
+    def sch_flags(text):
+        from lcapy.schematic import Schematic
+        sch = Schematic()
+        sch.add(text)
+        out = {}
+        for name, elt in sch.elements.items():
+            if elt.type == 'XX':
+                continue
+            out[name] = tuple((a, bool(getattr(elt, a))) for a in FLAGS if hasattr(elt, a))
+        return out
+
+    n_focus = 0
+    for ci, cl in enumerate(OPTS_CPTS):
+        for oi, op in enumerate(OPTS_FOCUS):
+            if not thorough and (ci + oi) % 2 == 1 and ci > 1:
+                continue
+            text = cl + '; ' + op
+            meta = {'rule': 'opts-focus', 'stream': 'opts'}
+            roundtrip_case(text, meta, 'opts')
+            chk.count('opts-focus', 'line')
+            n_focus += 1
+            try:
+                c0 = real.circuit(text)
+                cc = c0.copy()
+            except Exception as e:   # noqa
+                chk.count('opts-focus', 'skipped:' + type(e).__name__)
+                continue
+            d0 = [(e.name, e.classname, tuple(e.node_names), tuple(e.args), typed_opts(e.opts)) for e in c0._elements.values()]
+            d1 = [(e.name, e.classname, tuple(e.node_names), tuple(e.args), typed_opts(e.opts)) for e in cc._elements.values()]
+            chk.count('opts-focus', 'copy-compared')
+            if d0 != d1 and 'def' not in op:
+                state['cex'] += 1
+                chk.counterexample({'kind': 'roundtrip', 'clause': 'copy-opts', 'rule': 'opts-focus'},
+                                   {'input': text, 'lcapy': {'before': str(d0), 'after_copy': str(d1), 'printed': c0.netlist()},
+                                    'spec': 'copy() (print then parse) preserves option values and types'},
+                                   'copy() changes the options')
+            try:
+                f0 = sch_flags(text)
+                f1 = sch_flags(c0.netlist())
+                chk.count('opts-focus', 'schematic-flags-compared')
+                if f0 != f1:
+                    state['cex'] += 1
+                    chk.counterexample({'kind': 'roundtrip', 'clause': 'schematic-flags', 'rule': 'opts-focus'},
+                                       {'input': text, 'lcapy': {'printed': c0.netlist(), 'from_text': str(f0), 'from_printed': str(f1)},
+                                        'spec': 'boolean drawing attributes equal for the schematic of the printed text'},
+                                       'drawing attribute flips after print-then-parse')
+            except Exception as e:   # noqa
+                chk.count('opts-focus', 'schematic-skipped:' + type(e).__name__)
+
     # ---- 3d. malformed stream: the real code must raise (parser or component construction)
     for (text, cat, ty) in gen_malformed(real, rng, thorough):
         chk.count('malformed', cat)
@@ -890,6 +1001,9 @@ def run(chk, replay=None):
 
     # ---- 3e. netlists printed by Lcapy's own rewrites
     for (text, rw) in gen_rewrites(real, thorough):
+        if text is None:
+            chk.count('rewrite-error', rw)
+            continue
         if text.strip() == '':
             continue
         chk.count('rewrite', rw)
